@@ -1,4 +1,6 @@
 # not modelled, only validated: generics, nested functions (closure), comptime argument
+import guppylang
+guppylang.enable_experimental_features()
 from guppylang import guppy
 from guppylang.std.builtins import owned, comptime, nat
 
